@@ -541,7 +541,7 @@ def flag_table(ctx, kind, m):
     return _TABLES[key]
 
 
-def compare_state(ctx, ds, obs, tmask, fmask, bmask, m, label):
+def compare_state(ctx, ds, obs, tmask, fmask, bmask, m, label, check_flags=True):
     """implementation observables vs the model state; returns violation text or None"""
     exp_d = np.nonzero(tmask)[0].tolist()
     exp_c = np.nonzero(fmask)[0].tolist()
@@ -562,6 +562,8 @@ def compare_state(ctx, ds, obs, tmask, fmask, bmask, m, label):
         bad = np.argwhere(obs['raw'] != raw_sel)[0] if obs['raw'].shape == raw_sel.shape else None
         detail = '' if bad is None else f' at {bad.tolist()}: got {int(obs["raw"][tuple(bad)])} expected {int(raw_sel[tuple(bad)])}'
         return f'{label}: raw_flags differ from stored | data_lost | postproc{detail}'
+    if not check_flags:
+        return None
     table = flag_table(ctx, ds.kind, m)
     exp = table[raw_sel]
     out = obs['flags']
@@ -656,7 +658,9 @@ def run_hist_case(ctx, case, raw_table, data=True):
         if empty:
             ctx.tag('empty-selection')
         last = observe(ds, data=data and not empty)
-        v = compare_state(ctx, ds, last, tm, fm, bm, m, f'after call {i} ({call_desc(call)})')
+        # select() without arguments "clears all selections": whether that includes the flag selection is not
+        # fixed by the property (katdal keeps it); the generator re-states flags= right after such a call
+        v = compare_state(ctx, ds, last, tm, fm, bm, m, f'after call {i} ({call_desc(call)})', check_flags=bool(kw))
         if v:
             return v, True
         nontrivial = nontrivial or not empty
@@ -752,7 +756,7 @@ def fixed_selections(names):
 def make_cases(ctx, specs):
     rng = ctx.rng
     cases = []
-    n_sel = ctx.q(40, 1000)
+    n_sel = ctx.q(60, 1000)
     weights = {'v4': 1.0, 'v4cal': 0.3, 'v3': 0.6, 'v2': 0.8, 'v2tab': 0.5, 'v3tab': 0.2, 'v3doc': 0.2}
     for name, spec in specs.items():
         names = spec.get('table') or DOCUMENTED
@@ -765,7 +769,7 @@ def make_cases(ctx, specs):
             cases.append({'kind': 'sel', 'ds': spec, 'sel': sel})
         for _ in range(int(n_sel * w)):
             cases.append({'kind': 'sel', 'ds': spec, 'sel': gen_selection(rng, names)})
-    n_hist = ctx.q(36, 1500)
+    n_hist = ctx.q(60, 1500)
     hist_specs = [('v4', 0.45), ('v4lost0', 0.15), ('v4cal', 0.1), ('v3', 0.12), ('v2', 0.12), ('v2tab', 0.06)]
     return cases, n_hist, hist_specs
 
@@ -780,7 +784,13 @@ def gen_hist_cases(ctx, specs, n_hist, hist_specs, raw_table):
             continue
         for _ in range(max(1, int(round(n_hist * w)))):
             n = rng.randint(1, 7)
-            calls = [gen_call(rng, ds) for _ in range(n)]
+            calls = []
+            for _ in range(n):
+                c = gen_call(rng, ds)
+                calls.append(c)
+                if not call_kwargs(ds, c):
+                    calls.append({'reset': None, 'keys': [], 'flags': gen_selection(rng, ds.names),
+                                  'weights': gen_weights(rng) if rng.random() < 0.3 else None})
             if not any(c['flags'] is not None or c['weights'] is not None for c in calls):
                 calls.insert(rng.randint(0, len(calls)), {'reset': None, 'keys': [], 'flags': gen_selection(rng, ds.names),
                                                           'weights': None})
